@@ -441,6 +441,22 @@ func runC17(c *Ctx) {
 			}
 			return 0, false
 		}
+		// the gate may sit in an unexported helper that makes no store itself (it tests the existing list and the
+		// permission and hands the body out): such a helper is followed too
+		for _, g := range unexportedRegion(tp) {
+			if relevant[g] {
+				continue
+			}
+			for _, b := range g.Blocks {
+				for _, in := range b.Instrs {
+					if v, ok := in.(ssa.Value); ok {
+						if _, isFlag := r.Flag(v); isFlag {
+							relevant[g] = true
+						}
+					}
+				}
+			}
+		}
 		r.Match = func(in ssa.Instruction) []esp.Ev {
 			if isAny(in) {
 				nst++
